@@ -48,7 +48,9 @@ def build(ctx, spec, survey_attrs=None):
         extra = node[-1] if isinstance(node[-1], dict) else {}
         kids = node[2] if len(node) > 2 and isinstance(node[2], list) else None
         if kind == "q":
-            el = mk(ctx, repo.cls(_CLS["q"]), name, type=extra.get("type", "text"), bind={"type": "string"}, label=extra.get("label", name.upper()), **{k: v for k, v in extra.items() if k not in ("type", "label")})
+            qa = {"type": "text", "bind": {"type": "string"}, "label": name.upper(), "control": {"tag": "input"}}
+            qa.update(extra)
+            el = mk(ctx, repo.cls(_CLS["q"]), name, **qa)
         else:
             el = mk(ctx, repo.cls(_CLS[kind]), name, type="repeat" if kind == "r" else "group", label=extra.get("label", name.upper()), children=[], **{k: v for k, v in extra.items() if k != "label"})
         el.attrs["parent"] = parent
